@@ -15,7 +15,7 @@ VARIABLES ctr,    \* the registry's ID counter (MemClientMgr.nextClientID)
 mcvars == <<vars, ctr, view, hist>>
 
 A == <<65>>  B == <<66, 98>>
-Addrs == {"10.1.1.1", "10.2.2.2"}
+Addrs == {"10.1.1.1", "10.1.1.12", "10.2.2.2"}   \* one address is a textual prefix of another
 
 Accounts == [g \in {"guest", "adm", "mute", "mod"} |->
    CASE g = "guest" -> [pw |-> <<>>,  name |-> <<103>>, acc |-> {9, 10, 11, 26, 40}]
